@@ -29,6 +29,11 @@ class Sym:
         return (self.file, self.lo, self.hi)
 
 
+# probability that a parent list is built as a diamond (0: the default distribution; set by checks/C18.py for a separate
+# batch drawn from its own random stream, so the default batch is unchanged)
+DIAMOND_BIAS = 0.0
+
+
 class ClassInfo:
     def __init__(self, name, sym):
         self.name, self.sym = name, sym
@@ -399,10 +404,24 @@ class Gen:
         """`: A<..>, B` ; returns list of ClassInfo"""
         r = self.rng
         cands = [c for c in self.classes.values() if c is not ci]
-        if not allow or not cands or r.random() < 0.45:
+        ps = None
+        if DIAMOND_BIAS and allow and cands and r.random() < DIAMOND_BIAS:
+            # a diamond: X has two or more parents, the first of them (A) is reached BEFORE X through the first parent named
+            # here (A itself, or another heir of A), so X's walk meets an already visited ancestor before its later parents
+            byname = sorted(cands, key=lambda c: c.name)
+            xs = [c for c in byname if len(c.parents) >= 2 and any(c.parents[0] is k for k in cands)]
+            if xs:
+                x = r.choice(xs)
+                firsts = [x.parents[0]] + [k for k in byname if k is not x and any(q is x.parents[0] for q in k.parents)]
+                ps = [r.choice(firsts), x]
+                self.features.add("parents-diamond")
+        if ps is not None:
+            pass
+        elif not allow or not cands or r.random() < 0.45:
             return []
-        n = 1 if r.random() < 0.75 else 2
-        ps = r.sample(sorted(cands, key=lambda c: c.name), min(n, len(cands)))
+        else:
+            n = 1 if r.random() < (0.35 if DIAMOND_BIAS else 0.75) else 2
+            ps = r.sample(sorted(cands, key=lambda c: c.name), min(n, len(cands)))
         self.osp()
         self.emit(":")
         self.osp()
